@@ -271,7 +271,9 @@ CHECKS = {
              'and SubstitutionShape over programs of <= 4 instructions in any phases and file order, the full (defined type x '
              'required type) matrix directly and through one- and two-reference definitions and chains; every program is a '
              'real test case: VALIDATION_ERROR (place, rule, symbol) with nothing executed, or the values observed as argv '
-             'of a probe, created directories / files, environment and kept lines.',
+             'of a probe, created directories / files, environment and kept lines.  The same programs are also given to '
+             '`exactly symbol` (ReportMatchesWalk): listing (type, number of references), definition and references of '
+             'every symbol, or the error of the run, with nothing executed.',
         note='13 value types, 19 use contexts; which contexts demand "just strings" transitively follows the property '
              'statement and the program\'s messages (the manual is silent); three named deviations (FirstRefOnly, ActLast, '
              'NoBuiltinsInTable) must each be refuted by TLC in every run.',
